@@ -283,9 +283,8 @@ MANIFEST = {
             "of the on-disk format and of tune2fs(8). Repaired defects of the pinned tree these harnesses reported (fix: commits, known_findings.txt): tune2fs -O none bypassing "
             "clear_ok_features (demo_O_none.sh), get_move_bitmaps ignoring the end of the group / file system (demo_I_short_last_group.sh), "
             "ext2fs_is_block_in_group off by one, e2p_string2mntopt parsing MNTOPT_<n> at the wrong offset. Observed, not asserted: move_block never "
-            "resets meta_data (spurious ENOSPC refusal after a bitmap block moved). Open: zeroino_openfail -- zero_empty_inodes() hands an UNINITIALISED "
-            "ext2_inode_scan to ext2fs_close_inode_scan() (which reads scan->magic) when ext2fs_open_inode_scan() fails; candidate patch "
-            "harness/C11/candidate_fix_zero_empty_inodes.diff (scan = NULL). Seeded changes: m1 (inode_scan_and_fix early-out hoisted) is caught by inoscan, "
+            "resets meta_data (spurious ENOSPC refusal after a bitmap block moved). Also repaired: zero_empty_inodes() handed an uninitialised ext2_inode_scan to ext2fs_close_inode_scan() when the open failed (zeroino_openfail). "
+            "Seeded changes: m1 (inode_scan_and_fix early-out hoisted) is caught by inoscan, "
             "m2 (disable_uninit_bg restores the feature bit too late) by uninitbg, m3 (dx count == limit) by dxlimit.",
 }
 MANIFEST["assumptions"] = META["assumptions"]
